@@ -70,3 +70,50 @@ func NormalizeComparisonOperators(expr string) string {
 	}
 	return string(result)
 }
+
+// IsPlainPath reports whether expr is a plain variable path, i.e. something
+// the path walker resolves: names made of letters, digits, '_' and '-'
+// joined by dots, with optional bracket steps such as [0] or ['key']. The
+// empty string counts as a path (it resolves to nothing). Everything else -
+// literals, operators with or without blanks, negation, ternaries - is an
+// expression for the expression evaluator.
+func IsPlainPath(expr string) bool {
+	expr = strings.TrimSpace(expr)
+	if expr == "" {
+		return true
+	}
+	isNameChar := func(c byte) bool {
+		return c >= 'a' && c <= 'z' || c >= 'A' && c <= 'Z' || c >= '0' && c <= '9' || c == '_' || c == '-'
+	}
+	if c := expr[0]; !(c >= 'a' && c <= 'z' || c >= 'A' && c <= 'Z' || c == '_') {
+		return false
+	}
+	i, n := 0, len(expr)
+	for i < n {
+		start := i
+		for i < n && isNameChar(expr[i]) {
+			i++
+		}
+		if i == start {
+			return false
+		}
+		for i < n && expr[i] == '[' {
+			end := strings.IndexByte(expr[i:], ']')
+			if end < 0 {
+				return false
+			}
+			i += end + 1
+		}
+		if i == n {
+			return true
+		}
+		if expr[i] != '.' {
+			return false
+		}
+		i++
+		if i == n {
+			return false
+		}
+	}
+	return true
+}
